@@ -26,7 +26,10 @@ Container(v) == v.k \in {"list", "tuple", "set", "fset", "dict"}
 (* exact rational arithmetic on n/d with d > 0 *)
 NumLT(a, b) == a.n * b.d < b.n * a.d
 NumLE(a, b) == a.n * b.d <= b.n * a.d
-NumEq(a, b) == a.n * b.d = b.n * a.d
+\* equality: the projection sends every number as a reduced fraction, so equal numbers have equal n and d; numbers too large for
+\* TLC's 32-bit products (|n| or d beyond 30000) are compared in that canonical form only
+BigNum(a) == a.n > 30000 \/ a.n < -30000 \/ a.d > 30000
+NumEq(a, b) == IF a.n = b.n /\ a.d = b.d THEN TRUE ELSE IF BigNum(a) \/ BigNum(b) THEN FALSE ELSE a.n * b.d = b.n * a.d
 \* a is an integer multiple of m (m # 0):  (a.n/a.d) / (m.n/m.d) is an integer
 MultipleOf(a, m) == m.n # 0 /\ (a.n * m.d) % (a.d * m.n) = 0
 
